@@ -178,7 +178,7 @@ def run(ck):
                "a close / idle expiry, an injected EAGAIN or send error, a session-cap drop, or traffic on a client session.")
     # exhaustive runs: (cap, MaxSteps, with coverage statistics).  The coverage runs (self-test: every action taken) use a
     # smaller depth because -coverage slows TLC down considerably.
-    mc_keys = [(0, 5, True), (2, 5, True)] + ([(0, 7, False), (2, 7, False)] if thorough else [(0, 6, False)])
+    mc_keys = [(0, 4, True), (2, 4, True)] + ([(0, 7, False), (2, 7, False)] if thorough else [(0, 6, False), (2, 5, False)])
 
     def job_mc(key):
         cap, steps, cov = key
